@@ -98,7 +98,7 @@ def run(ctx):
                           coverage=not q, workers=4 if q else 8)
 
     def m_sim():
-        return ctx.tlc_mc(SPEC, "Namesys.tla", "MCNamesys2.cfg", timeout=2400, simulate=60 if q else 20000,
+        return ctx.tlc_mc(SPEC, "Namesys.tla", "MCNamesys2.cfg", timeout=2400, simulate=60 if q else 4000,
                           depth=60 if q else 80, workers=2 if q else 4)
 
     def m_dev():
@@ -115,8 +115,8 @@ def run(ctx):
             gen("GenNamesysD3.cfg" if q else "GenNamesysD4.cfg", workers=4),
             (gen("GenNamesysPubSim.cfg", simulate=10, depth=1500) if q else gen("GenNamesysPub.cfg", workers=4)),
             (gen("GenNamesysChainSim.cfg", simulate=10, depth=2500) if q else gen("GenNamesysChain.cfg", workers=4)),
-            gen("GenNamesysSim.cfg", simulate=8 if q else 120, depth=1000),
-            gen("GenNamesysSim2.cfg", simulate=4 if q else 60, depth=1000)]
+            gen("GenNamesysSim.cfg", simulate=6 if q else 120, depth=1000),
+            gen("GenNamesysSim2.cfg", simulate=3 if q else 60, depth=1000)]
     import time as _t
 
     def staggered(i_f):
@@ -129,7 +129,7 @@ def run(ctx):
     d4, pub, chn, sim, sim2 = outs[3:]
     # the two large families: quick = TLC-simulated length-4 sequences over the same alphabets; thorough = seeded
     # sample of ALL length-3 sequences.  The one-name core family is always replayed completely.
-    k = 900 if q else 20000
+    k = 600 if q else 8000
     pub = ctx.rng.sample(pub, min(len(pub), k))
     chn = ctx.rng.sample(chn, min(len(chn), k))
     fams = [("core", d4), ("pub", pub), ("chain", chn), ("sim", sim), ("sim2", sim2)]
